@@ -516,6 +516,50 @@ def _check_listing(ctx, spec, keys, expected, ident, tag):
         ctx.fail(spec, 'listing-last', 'not-max', f'last={last!s} expected ident {expected[-1]}', [tag])
 
 
+def _check_put_after(ctx, spec, existing) -> bool:
+    """Generations persisted under the given (possibly gapped, not starting at 1) keys through ``Registry.close``; a
+    generation then committed the lifecycle way (``Release.put``) becomes max+1 and every tag reads back as written."""
+    from forml.provider.registry.filesystem import posix  # pylint: disable=import-outside-toplevel
+
+    base = _scratch(ctx, 'g')
+    try:
+        prj.Manifest('gp', '1', 'gpkg').write(base / 'src')
+        registry = posix.Registry(base / 'registry')
+        registry.push(prj.Package(base / 'src'))
+        project, release = asset.Project.Key('gp'), asset.Release.Key('1')
+        level = asset.Directory(registry).get('gp').get('1')
+
+        def tag(i):
+            return asset.Tag(training=asset.Tag.Training(datetime.datetime(2023, 5, 1 + i % 20, 10, 30), i), states=[level.dump(f's{i}'.encode())])
+
+        written = {}
+        for n in existing:
+            written[n] = tag(n)
+            registry.close(project, release, asset.Generation.Key(n), written[n])
+        ctx.klass('genkey:put-after-gap' if existing != list(range(1, len(existing) + 1)) else 'genkey:put-after-consecutive')
+        new = tag(max(existing) + 1000)
+        got = asset.Directory(registry).get('gp').get('1').put(new)
+        written[max(existing) + 1] = new
+        if int(got.key) != max(existing) + 1:
+            ctx.fail(spec, 'put-key', 'not-max+1', f'existing {existing}: put() committed generation {got.key}', ['gap'] if existing != list(range(1, len(existing) + 1)) else [])
+            return False
+        fresh = asset.Directory(posix.Registry(base / 'registry')).get('gp').get('1')
+        listed = [int(k) for k in fresh.list()]
+        if listed != sorted(written):
+            ctx.fail(spec, 'put-listing', 'differs', f'existing {existing}: listing after put {listed}', [])
+            return False
+        for n, want in written.items():
+            if fresh.get(n).tag != want:
+                ctx.fail(spec, 'put-tags', 'changed', f'existing {existing}: tag of generation {n} no longer reads back as written', [])
+                return False
+    except Exception as exc:  # pylint: disable=broad-except
+        ctx.fail_exc(spec, 'put-raises', exc, [])
+        return False
+    finally:
+        shutil.rmtree(base, ignore_errors=True)
+    return True
+
+
 # =====================================================================================================================
 # generation keys
 # =====================================================================================================================
@@ -592,6 +636,8 @@ def check_genkey(ctx, spec):
         ctx.fail(spec, 'genkey-order', 'sorted', f'sorted={sorted(keys)} expected={sorted(ns)}')
         return
     _check_listing(ctx, spec, keys, sorted(set(ns)), int, 'generation')
+    if ns and max(ns) < 10**7 and not _check_put_after(ctx, spec, sorted(set(ns))[:4]):
+        return
     for cand, (kind, n) in zip(spec['cands'], cls):
         try:
             key = Key(cand)
@@ -754,6 +800,8 @@ def package_spec(draw):
         'reinstall': draw(st.booleans()),
         # re-packaging: the source tree still carries the descriptor of an earlier release (other version, other module map)
         'stale': draw(st.booleans()),
+        # the install target already holds another build of the same name and version (other module map, other code)
+        'stale_install': draw(st.integers(0, 2)) == 0,
     }
 
 
@@ -773,6 +821,31 @@ def package_modules(spec) -> dict:
         elif c['where'] == 'sub':
             modules[comp] = f"{spec['package']}.sub_{comp[:3]}.{c['mod']}"
     return modules
+
+
+def _stale_child(base: str, spec) -> dict:
+    """Runs in a forked child of its own (an earlier process): another build of the same name and version - other module
+    map, code that must never run - installed at the target path our package is about to be installed to."""
+    base = pathlib.Path(base)
+    src = base / 'src0'
+    level = src
+    for part in spec['package'].split('.'):
+        level = level / part
+        level.mkdir(parents=True)
+        (level / '__init__.py').write_text('')
+    for name in ('source', 'pipeline', 'evaluation', 'stale_pipeline'):
+        (level / f'{name}.py').write_text('raise RuntimeError("stale build loaded")\n')
+    stale = {} if package_modules(spec) else {'pipeline': 'stale_pipeline'}
+    manifest = prj.Manifest(spec['name'], spec['version'], spec['package'], **stale)
+    if spec['kind'] == 'dir':
+        manifest.write(src)
+        package = prj.Package(src)
+    else:
+        if spec['kind'] == 'zip-unsafe':
+            (level / 'data.txt').write_text('stale payload')
+        package = prj.Package.create(src, manifest, base / 'dist' / 'stale.4ml')
+    package.install(base / 'inst' / f"{spec['name']}-{spec['version']}")
+    return {'ok': True}
 
 
 def _package_child(base: str, spec) -> dict:
@@ -849,10 +922,15 @@ def check_package(ctx, spec):
     classes += ['package:no-evaluation'] if not spec['comps']['evaluation']['present'] else []
     classes += ['package:reinstall'] if spec['reinstall'] else []
     classes += ['package:stale-descriptor'] if spec.get('stale') and spec['kind'] != 'dir' else []
+    classes += ['package:stale-install'] if spec.get('stale_install') else []
     ctx.case(spec, nontrivial=bool(modules), classes=classes)
     base = _scratch(ctx, 'p')
     try:
         (base / 'dist').mkdir()
+        if spec.get('stale_install'):
+            pre = iso.forked(_stale_child, str(base), spec)
+            if '__child_error__' in pre:
+                raise RuntimeError(f"stale install child failed: {pre['__child_error__']}\n{pre.get('traceback')}")
         res = iso.forked(_package_child, str(base), spec)
     finally:
         shutil.rmtree(base, ignore_errors=True)
